@@ -1190,6 +1190,9 @@ def run(ctx):
     ctx.section(_iter_rule, ctx)
     ctx.section(_rec_rule, ctx)
     ctx.section(_regex_rule, ctx)
+    from . import c10 as _c10_state
+
+    ctx.section(_c10_state.state_slice, ctx, 'C11.state', ['cdd.compound.doctrans.doctrans', 'cdd.docstring.emit.docstring', 'cdd.docstring.parse.docstring'], 5)
     ctx.samples = samples[:8]
 
 
